@@ -28,23 +28,30 @@ package server
 // c19nsys(j) = number of system messages among msgs[0:j], c19sidx(p) = index of the p-th system message.
 //@ spec func c19nsys(j int) int
 //@ spec func c19sidx(p int) int
+// c19nimg(j) = number of images attached to msgs[0:j]
+//@ spec func c19nimg(j int) int
 
 //@ func chatPrompt
 //@   requires len(msgs) >= 1
 //@   requires c19nsys(0) == 0
 //@   requires forall j int :: 0 <= j && j < len(msgs) ==> c19nsys(j+1) == c19nsys(j) + ite(msgs[j].Role == "system", 1, 0)
 //@   requires forall j int :: 0 <= j && j < len(msgs) && msgs[j].Role == "system" ==> c19sidx(c19nsys(j)) == j
+//@   requires c19nimg(0) == 0
+//@   requires forall j int :: 0 <= j && j < len(msgs) ==> c19nimg(j+1) == c19nimg(j) + len(msgs[j].Images)
+//@   ensures forall k int :: 0 <= k && k < len(images) ==> images[k].ID == k
 //
 //@   loop 1 invariant -1 <= i && i <= n && n - 1 <= i && n <= len(msgs) - 1 && 0 <= n
 //@   loop 1 invariant n == len(msgs) - 1 ==> len(system) == 0
 //@   loop 1 invariant cap(system) == 0 || fresh(system)
 //@   loop 1 invariant forall q int :: 0 <= q && q < len(msgs) ==> msgs[q].Role == old(msgs[q].Role)
+//@   loop 1 invariant forall q int :: 0 <= q && q < len(msgs) ==> len(msgs[q].Images) == old(len(msgs[q].Images))
 //@   loop 1 invariant forall p int :: 0 <= p && p < len(system) ==> 0 <= c19sidx(p) && c19sidx(p) < n && msgs[c19sidx(p)].Role == "system" && system[p].Role == msgs[c19sidx(p)].Role && system[p].Content == msgs[c19sidx(p)].Content
 //@   loop 1 invariant n < len(msgs) - 1 ==> i == n - 1 && len(system) == c19nsys(n)
 //@   loop 1 invariant n < len(msgs) - 1 ==> forall q int :: 0 <= q && q < n && msgs[q].Role == "system" ==> 0 <= c19nsys(q) && c19nsys(q) < len(system) && system[c19nsys(q)].Role == msgs[q].Role && system[c19nsys(q)].Content == msgs[q].Content
 //
 //@   loop 2 invariant fresh(system) && len(system) == c19nsys(j)
 //@   loop 2 invariant forall q int :: 0 <= q && q < len(msgs) ==> msgs[q].Role == old(msgs[q].Role)
+//@   loop 2 invariant forall q int :: 0 <= q && q < len(msgs) ==> len(msgs[q].Images) == old(len(msgs[q].Images))
 //@   loop 2 invariant forall p int :: 0 <= p && p < len(system) ==> 0 <= c19sidx(p) && c19sidx(p) < j && msgs[c19sidx(p)].Role == "system" && system[p].Role == msgs[c19sidx(p)].Role && system[p].Content == msgs[c19sidx(p)].Content
 //@   loop 2 invariant forall q int :: 0 <= q && q < j && msgs[q].Role == "system" ==> 0 <= c19nsys(q) && c19nsys(q) < len(system) && system[c19nsys(q)].Role == msgs[q].Role && system[c19nsys(q)].Content == msgs[q].Content
 //
@@ -54,9 +61,14 @@ package server
 //@   loop 4 invariant forall q int :: 0 <= q && q < len(msgs) ==> msgs[q].Role == old(msgs[q].Role)
 //@   loop 4 invariant forall p int :: 0 <= p && p < len(system) ==> 0 <= c19sidx(p) && c19sidx(p) < currMsgIdx && msgs[c19sidx(p)].Role == "system" && system[p].Role == msgs[c19sidx(p)].Role && system[p].Content == msgs[c19sidx(p)].Content
 //@   loop 4 invariant forall q int :: 0 <= q && q < currMsgIdx && msgs[q].Role == "system" ==> 0 <= c19nsys(q) && c19nsys(q) < len(system) && system[c19nsys(q)].Role == msgs[q].Role && system[c19nsys(q)].Content == msgs[q].Content
+//   images: numbered by their position in the returned list; exactly the images of msgs[currMsgIdx:]
+//@   loop 4 invariant forall q int :: 0 <= q && q < len(msgs) ==> len(msgs[q].Images) == old(len(msgs[q].Images))
 //@   loop 4 invariant forall k int :: 0 <= k && k < len(images) ==> images[k].ID == k
+//@   loop 4 invariant len(images) == c19nimg(currMsgIdx + rangeindex + 1) - c19nimg(currMsgIdx)
 //@   loop 5 invariant forall k int :: 0 <= k && k < len(images) ==> images[k].ID == k
-//@   assert-at call append #3 : imgData.ID == len(images)
+//@   loop 5 invariant len(images) == c19nimg(currMsgIdx + cnt) - c19nimg(currMsgIdx) + rangeindex + 1
+//@   assert-at call append #3 : imgData.ID == len(images) && 0 <= cnt && currMsgIdx + cnt <= len(msgs) - 1
+//@   assert-at call append #4 : len(images) == c19nimg(len(msgs)) - c19nimg(currMsgIdx)
 //
 //   the final rendering (append #4 builds the message list passed to Execute #2): latest message
 //   retained, system messages in the property's own words
